@@ -446,7 +446,7 @@ def encode_grid(acc, enc):
             spec = {"date": list(d)}
             _rec(acc, enc, cfg, spec)
         for (h, m, s), us, tz in itertools.product(times, US_VALUES, sorted(
-                set(TZ_VALUES), key=lambda x: (x is not None, x))):
+                set(TZ_VALUES), key=lambda x: (x is not None, x)) + ["rule"]):
             if acc.expired():
                 acc.notes["budget_exhausted"] = 1
                 return
